@@ -451,6 +451,10 @@ func (e *Exec) deepCopyObject(cc *callCtx) Val {
 	e.omComp(st, "OM_fins_len", "Int")
 	e.omComp(st, "OM_ctrl_has", "Bool")
 	e.omComp(st, "OM_ctrl_uid", "String")
+	if ot := e.W.lookupType(pkgMetaV1, "OwnerReference"); ot != nil {
+		e.omComp(st, "OM_owners_arr", "(Array Int "+e.reg.sortOf(ot)+")")
+		e.omComp(st, "OM_owners_len", "Int")
+	}
 	e.omComp(st, "OM_status", "Any")
 	e.omComp(st, "OM_rest", "Int")
 	dst := e.freshRef(st, "deepcopy")
@@ -465,13 +469,15 @@ func (e *Exec) deepCopyObject(cc *callCtx) Val {
 			e.declFun("deepcopy_of", []string{"Int"}, "Int")
 			srcContent := app(si.fields[0], Select(e.comp(st, n, so), src))
 			e.assume(Eq(app("deepcopy_of", content), srcContent), "")
+			e.assume(And(app("<", srcContent, content), app(">=", srcContent, "0")), "references stored in the heap are allocated")
 			if mt, ok := unalias(si.st.Field(0).Type()).Underlying().(*types.Map); ok {
 				dn, ds, vn, vs := e.mapNames(mt)
 				ln, ls := e.mapLenName(mt)
 				d, v, l := e.comp(st, dn, ds), e.comp(st, vn, vs), e.comp(st, ln, ls)
-				e.declFun("dcval", []string{"Any"}, "Any")
+				e.declDcval()
 				row := e.fresh(cc.f.prefix+"dccontent", "(Array String Any)")
-				e.assume(fmt.Sprintf("(forall ((kq String)) (! (= (select %s kq) (dcval (select (select %s %s) kq))) :pattern ((select %s kq))))", row, v, srcContent, row), "DeepCopy copies every value of the content map deeply")
+				srcRow := e.define(cc.f.prefix+"dcsrc", "(Array String Any)", Select(v, srcContent))
+				e.assume(fmt.Sprintf("(forall ((kq String)) (! (= (select %s kq) (dcval (select %s kq))) :pattern ((select %s kq)) :pattern ((select %s kq))))", row, srcRow, row, srcRow), "DeepCopy copies every value of the content map deeply")
 				e.setComp(st, dn, ds, Store(d, content, Select(d, srcContent)))
 				e.setComp(st, vn, vs, Store(v, content, row))
 				e.setComp(st, ln, ls, Store(l, content, Select(l, srcContent)))
@@ -533,6 +539,17 @@ type writeTarget struct {
 	single Term
 	member func(r Term) Term
 	text   string
+	// ownCell: for a single target that points to a plain struct (not an object with a modelled footprint),
+	// the only pointee component it can denote; references are typed, so it is no cell of another H_ component
+	ownCell string
+}
+
+// appliesTo: can this target denote a cell of component comp?
+func (w writeTarget) appliesTo(comp string) bool {
+	if w.ownCell == "" || !strings.HasPrefix(comp, "H_") {
+		return true
+	}
+	return comp == w.ownCell
 }
 
 func (w writeTarget) contains(r Term) Term {
@@ -551,7 +568,13 @@ func (e *Exec) evalWriteTargets(env *Env, wc *WritesClause) ([]writeTarget, erro
 			return nil, fmt.Errorf("writes %s: %v", wc.Texts[i], err)
 		}
 		if !wc.Elems[i] {
-			out = append(out, writeTarget{single: e.writeTargetRef(v), text: wc.Texts[i]})
+			wt := writeTarget{single: e.writeTargetRef(v), text: wc.Texts[i]}
+			if el := deref(v.T); el != nil && e.reg.sortOf(v.T) == "Int" {
+				if _, isStruct := unalias(el).Underlying().(*types.Struct); isStruct && !strings.HasSuffix(el.String(), "unstructured.Unstructured") {
+					wt.ownCell, _ = e.heapName(el)
+				}
+			}
+			out = append(out, wt)
 			continue
 		}
 		st := env.cur
@@ -618,4 +641,14 @@ func (e *Exec) entryInvTerms(st *State, v Val) []ginvInst {
 		out = append(out, ginvInst{ei.Clause, term})
 	}
 	return out
+}
+
+// declDcval: the deep copy of a JSON value as an uninterpreted function (nil stays nil).
+func (e *Exec) declDcval() {
+	if !e.declared["dcval"] {
+		e.declFun("dcval", []string{"Any"}, "Any")
+		if e.inQuant == 0 {
+			e.assume(Eq(app("dcval", "nil_any"), "nil_any"), "the deep copy of nil is nil")
+		}
+	}
 }
